@@ -237,6 +237,36 @@ def cycle_job(j):
         shutil.rmtree(d, True)
 
 
+def include_line_job(j):
+    """a bad line AFTER an include directive must be reported with its own line number (relative and absolute include)"""
+    how, inc_lines, pre_lines = j
+    d = run.fresh_dir()
+    try:
+        inc = os.path.join(d, "inc.cfg")
+        open(inc, "w").write("".join("# c%d\n" % i for i in range(inc_lines - 1)) + "indent_columns = 3\n")
+        target = inc if how == "absolute" else "inc.cfg"
+        bad = ["no_such_option_zz = 1", "indent_columns = 99", "nl_max = maybe"]
+        text = "".join("# p%d\n" % i for i in range(pre_lines)) + "include %s\n" % target + "\n".join(bad) + "\n"
+        p = os.path.join(d, "main.cfg"); open(p, "w").write(text)
+        r = dump_of(p, d)
+        v = []
+        c = crashy(r)
+        files = {"config.cfg": text, "stderr": r.err[-3000:], "files": "inc.cfg with %d lines" % inc_lines}
+        if c:
+            v.append(({"clause": "crash-or-hang", "directive": "include-" + how, "what": c.split()[0]}, files))
+        else:
+            err = r.err.decode("latin-1")
+            for k, b in enumerate(bad):
+                want = "main.cfg:%d" % (pre_lines + 2 + k)
+                name = b.split()[0]
+                if not any(want in l and name in l for l in err.splitlines()):
+                    v.append(({"clause": "diagnostic-names-wrong-line-after-include", "directive": "include-" + how, "bad": name}, files))
+                    break
+        return {"id": "incl-%s-%d-%d" % (how, inc_lines, pre_lines), "runs": 1, "viol": v, "nontrivial": 1}
+    finally:
+        shutil.rmtree(d, True)
+
+
 def count_options(R):
     out = []
     for o in R.values():
@@ -321,7 +351,8 @@ def check(ctx):
         for res in pool.imap(option_job, names, chunksize=4, deadline=ctx.deadline):
             take(res)
         nopt = agg["runs"]
-        for fn, jobs in ((directive_job, DIRECTIVES), (cycle_job, cyc), (nlmax_job, nlj), (text_job, texts)):
+        incj = [(how, n, pre) for how in ("relative", "absolute") for n in (1, 2, 7, 20) for pre in (0, 3)]
+        for fn, jobs in ((directive_job, DIRECTIVES), (cycle_job, cyc), (include_line_job, incj), (nlmax_job, nlj), (text_job, texts)):
             for res in pool.imap(fn, jobs, chunksize=16, deadline=ctx.deadline):
                 take(res)
         if pool.cut:
